@@ -88,8 +88,9 @@ def handle (line : String) : Out :=
       match parseNat? n, parseRaw raw with
       | some n, some P =>
         if P.length ≠ n then badOp else
-        let so := serverNegotiate lk s.m P
-        { model := s!"s={renderSOut so} msg={renderMsg so.msg?}" }
+        match serverReceive lk s.m P with
+        | some so => { model := s!"s={renderSOut so} msg={renderMsg so.msg?}" }
+        | none => { model := "s=err:decode msg=none" }
       | _, _ => badOp
     | _, _ => badOp
   | _ => badOp
